@@ -59,8 +59,10 @@ func (r *ExtRun) hook(ext, hook, path, info string) (nilFinish bool) {
 	}
 	r.mu.Lock()
 	r.n++
-	tok := fmt.Sprintf("PANICTOKEN%d", 7700+r.n)
-	num := 7700 + r.n
+	// the token identifies the hook (and path), not the order of firing, so that
+	// the same plan produces the same messages in every execution
+	num := 100000 + int(hash64(key, path)%900000)
+	tok := fmt.Sprintf("PANICTOKEN%d", num)
 	r.Fired = append(r.Fired, tok[len("PANICTOKEN"):]+":"+kind+":"+key)
 	r.mu.Unlock()
 	r.logf("%s!", name)
